@@ -70,6 +70,11 @@ theorem step_noPanic (st : St) (e : Ev) (hn : noPanic st) (hok : st.stopped = tr
       cases hl : lookup st.handlers id with
       | none => simp [hl] at hok'
       | some r => simp [noPanic, hl] at hn ⊢; exact hn
+    | badFwd id =>
+      simp only [okEv] at hok'
+      cases hl : lookup st.handlers id with
+      | none => simp [hl] at hok'
+      | some r => simpa [noPanic, hl, fixed] using hn
 
 theorem run_noPanic (st : St) (es : List Ev) (hn : noPanic st) (hok : okRun fixed st es) : noPanic (run fixed st es) := by
   induction es generalizing st with
@@ -238,6 +243,11 @@ theorem step_fresh (V : Variant) (st : St) (e : Ev) (h : Fresh st) : Fresh (step
       · intro p hp
         simp at hp
         exact h p hp.1
+      · simpa [Fresh] using h
+    | badFwd id =>
+      simp only
+      split
+      · split <;> simpa [Fresh] using h
       · simpa [Fresh] using h
 
 end Router
